@@ -137,7 +137,7 @@ int main(int argc, char** argv) {
         json ev = {{"e", "Run"}, {"id", id}, {"n", N}};
         auto it = expected.find(id);
         if (it == expected.end()) { ev["ok"] = false; ev["why"] = "no expectation"; tr.emit(ev); continue; }
-        bool ok = true;
+        bool ok = true, fragile = false;
         std::string why;
         try {
             std::vector<long double> exp;
@@ -150,6 +150,16 @@ int main(int argc, char** argv) {
                     const long double e = exp[k];
                     const long double tol = 2e-10L * (1.0L + std::fabs(e));
                     if (!(std::fabs(static_cast<long double>(r[k]) - e) <= tol)) {
+                        // does the reference itself jump when its constants move by 2^-28 (a branch cut of atan2, a kink of
+                        // abs / min / max, an exact cancellation in front of one)?  Then the comparison is not meaningful.
+                        const json& term = (k == 0) ? it->second["v"] : it->second["d"][k - 1];
+                        bool jumps = false;
+                        for (long double eps : {3.7e-9L, -3.7e-9L}) {
+                            Perturb pt{eps, 0};
+                            const long double ep = evalTerm(term, {}, &pt);
+                            if (!(std::fabs(ep - e) <= 1.0e-5L * (1.0L + std::fabs(e)))) jumps = true;
+                        }
+                        if (jumps) { fragile = true; continue; }
                         ok = false;
                         why = std::string(variant) + (k == 0 ? " value" : " derivative " + std::to_string(k - 1)) +
                               ": got " + hexd(r[k]) + " = " + std::to_string(r[k]) + " expected " + std::to_string(static_cast<double>(e));
@@ -166,6 +176,7 @@ int main(int argc, char** argv) {
                 }
         } catch (const std::exception& e) { ok = false; why = std::string("exception: ") + e.what(); }
         ev["ok"] = ok;
+        if (fragile) ev["fragile"] = true;
         if (!ok) ev["why"] = why;
         tr.emit(ev);
     }
